@@ -1465,7 +1465,7 @@ class Interp:
             return v
         if isinstance(obj, ModuleVal):
             return self.module_get(obj.name, name)
-        if isinstance(obj, (_inspect.Signature, _inspect.Parameter)) and name in ("parameters", "name", "kind", "default"):
+        if isinstance(obj, (_inspect.Signature, _inspect.Parameter)) and name in ("parameters", "name", "kind", "default", "annotation", "return_annotation", "empty"):
             v = getattr(obj, name)
             return dict(v) if name == "parameters" else v
         if isinstance(obj, Ext):
@@ -1497,6 +1497,8 @@ class Interp:
                 return Ext("builtins.object.__new__")
             raise Raised(ExcVal("AttributeError", args=(name,)))
         if isinstance(obj, Closure):
+            if name in obj.attrs:
+                return obj.attrs[name]
             if name == "__name__":
                 return obj.name
             if name in obj.attrs:
@@ -2165,8 +2167,22 @@ class Interp:
             return _re.I
         if d == "typing.NewType":
             return NewTypeVal(args[0], args[1])
+        if d == "inspect.Parameter" and len(args) >= 2:
+            kw_ = {k_: v_ for k_, v_ in kwargs.items() if k_ in ("default", "annotation")}
+            try:
+                return _inspect.Parameter(args[0], args[1], **kw_)
+            except (TypeError, ValueError) as ex:
+                raise Raised(ExcVal(type(ex).__name__, args=(str(ex),))) from None
+        if d == "inspect.Signature":
+            params_ = list(args[0]) if args else list(kwargs.get("parameters", []))
+            try:
+                return _inspect.Signature(params_, **({"return_annotation": kwargs["return_annotation"]} if "return_annotation" in kwargs else {}))
+            except (TypeError, ValueError) as ex:
+                raise Raised(ExcVal(type(ex).__name__, args=(str(ex),))) from None
         if d == "inspect.signature":
             fn = args[0]
+            if isinstance(fn, Closure) and isinstance(fn.attrs.get("__signature__"), _inspect.Signature):
+                return fn.attrs["__signature__"]          # an explicit __signature__ is what inspect.signature() reports
             if not isinstance(fn, Closure):
                 raise Unsupported("inspect.signature of non-function")
             a = fn.node.args
@@ -2191,6 +2207,8 @@ class Interp:
             return ()
         if d == "typing.get_type_hints":
             fn = args[0]
+            if isinstance(fn, Closure) and isinstance(fn.attrs.get("__annotations__"), dict):
+                return dict(fn.attrs["__annotations__"])      # annotations assigned after the definition (generated functions)
             if isinstance(fn, Closure):
                 return self.type_hints(fn)
             raise Unsupported("get_type_hints of non-function")
